@@ -24,6 +24,18 @@ FLAT = "buffers::Buffer::flat_clone"
 SHAPE_ADT = "formats::color_optimization::GlyphShape"
 
 
+def _subtrees(e, depth=0):
+    out = []
+    if depth > 60 or not isinstance(e, (tuple, list)):
+        return out
+    if isinstance(e, tuple):
+        out.append(e)
+    for x in e:
+        if isinstance(x, (tuple, list)):
+            out += _subtrees(x, depth + 1)
+    return out
+
+
 def strip(e):
     while isinstance(e, tuple) and e and e[0] in ("ref", "deref", "cast"):
         e = e[2] if e[0] == "cast" else e[1]
@@ -129,6 +141,31 @@ def run(chk):
 
         def in_arm(bi, nm):
             return arm.get(nm) is not None and (bi == arm[nm] or wb.dominates(arm[nm], bi))
+        # the shape is looked up for the cell's own font page and its own character: shape_map[cell.get_font_page()][cell.ch]
+        gets = []
+
+        def walk_gets(e, depth=0):
+            if depth > 60 or not isinstance(e, (tuple, list)):
+                return
+            if isinstance(e, tuple) and e and e[0] == "call" and isinstance(e[1], str) and e[1].endswith("HashMap::<K, V, S, A>::get") and len(e[2]) == 2:
+                gets.append(e)
+            for x in e:
+                if isinstance(x, (tuple, list)):
+                    walk_gets(x, depth + 1)
+        walk_gets(eb.operand(sw[1]["discr"]))
+        outer = [g_ for g_ in gets if "shape_map" not in show(g_[2][0]).split("get(")[0] and any(h_ is not g_ and h_ in _subtrees(g_[2][0]) for h_ in gets)]
+        inner = [g_ for g_ in gets if show(strip(g_[2][0])).endswith(".shape_map")]
+        okk = len(inner) == 1 and len(outer) == 1
+        why_k = "the lookup `shape_map.get(page).get(ch)` was not found in the switch on the glyph shape"
+        if okk:
+            k1, k2 = strip(inner[0][2][1]), strip(outer[0][2][1])
+            c1 = strip(k1[2][0]) if (k1[0] == "call" and k1[1].endswith("AttributedChar::get_font_page") and len(k1[2]) == 1) else None
+            c2 = strip(k2[1]) if (k2[0] == "field" and k2[2] == "ch") else None
+            okk = c1 is not None and c2 is not None and c1 == c2
+            why_k = "the shape table is chosen by `%s` and indexed by `%s`: not the font page and the character of one and the same cell" % (show(k1)[:60], show(k2)[:60])
+        chk.obligation(okk)
+        if not okk:
+            chk.finding("optimize|shape-key", rule="R-OPT-ARM", where="%s:%s" % (wb.file, sw[1].get("line")), fn=wb.short(), what=why_k)
 
         def target(s):
             """'attr' / 'ch' / None: which part of the rewritten cell an assignment writes"""
